@@ -183,7 +183,7 @@ class Inliner:
         call, target, is_ret = None, None, False
         if isinstance(st, ast.Expr) and isinstance(st.value, ast.Call):
             call = st.value
-        elif isinstance(st, ast.Assign) and len(st.targets) == 1 and isinstance(st.value, ast.Call) and isinstance(st.targets[0], (ast.Name, ast.Attribute, ast.Subscript)):
+        elif isinstance(st, ast.Assign) and len(st.targets) == 1 and isinstance(st.value, ast.Call) and isinstance(st.targets[0], (ast.Name, ast.Attribute, ast.Subscript, ast.Tuple)):
             call, target = st.value, st.targets[0]
         elif isinstance(st, ast.Return) and isinstance(st.value, ast.Call):
             call, is_ret = st.value, True
@@ -228,6 +228,10 @@ class Inliner:
                 pre.append(ast.Assign(targets=[ast.Name(id=tag + p, ctx=ast.Store())], value=copy.deepcopy(arg)))
         for n in rebound - params:
             mapping[n] = tag + n
+        # `target = helper(...)` with `return local`: the helper's local *is* the caller's target
+        if last_ret is not None and isinstance(last_ret.value, ast.Name) and last_ret.value.id in (rebound - params) and isinstance(target, ast.Name) \
+                and target.id not in {n_.id for s_ in core for n_ in ast.walk(s_) if isinstance(n_, ast.Name)}:
+            mapping[last_ret.value.id] = target.id
         out = list(pre)
         sub = Subst(mapping)
         for s in core:
